@@ -38,6 +38,8 @@ type Scenario struct {
 	AutoApprove bool     `json:"autoApprove"`
 	V2Fails   bool       `json:"v2Fails"`
 	IstioDR   bool       `json:"istioDR,omitempty"`
+	ForeignBackend bool  `json:"foreignBackend,omitempty"` // gateway: the stable rule also carries a backend the rollout does not own
+	HeaderRegex bool     `json:"headerRegex,omitempty"`
 	HashCompat bool      `json:"hashCompat"`
 }
 
@@ -190,6 +192,8 @@ func (sc *Scenario) buildRollout() *v1beta1.Rollout {
 		case sc.Traffic == "gateway":
 			n := sc.Name + "-route"
 			tr.Gateway = &v1beta1.GatewayTrafficRouting{HTTPRouteName: &n}
+		case sc.Traffic == "custom-cm":
+			tr.CustomNetworkRefs = []v1beta1.ObjectRef{{APIVersion: "example.io/v1", Kind: "TrafficTag", Name: sc.Name + "-tag"}}
 		case sc.Traffic == "istio":
 			tr.CustomNetworkRefs = []v1beta1.ObjectRef{{APIVersion: "networking.istio.io/v1alpha3", Kind: "VirtualService", Name: sc.Name + "-vs"}}
 			if sc.IstioDR {
@@ -201,7 +205,12 @@ func (sc *Scenario) buildRollout() *v1beta1.Rollout {
 	for i, st := range sc.Steps {
 		if st.Header != "" {
 			ht := gatewayv1beta1.HeaderMatchExact
-			steps[i].Matches = []v1beta1.HttpRouteMatch{{Headers: []gatewayv1beta1.HTTPHeaderMatch{{Type: &ht, Name: gatewayv1beta1.HTTPHeaderName(st.Header), Value: "yes"}}}}
+			val := "yes"
+			if sc.HeaderRegex && i%2 == 0 {
+				ht = gatewayv1beta1.HeaderMatchRegularExpression
+				val = "^1[0-9]*$"
+			}
+			steps[i].Matches = []v1beta1.HttpRouteMatch{{Headers: []gatewayv1beta1.HTTPHeaderMatch{{Type: &ht, Name: gatewayv1beta1.HTTPHeaderName(st.Header), Value: val}}}}
 			steps[i].Traffic = nil
 		}
 	}
@@ -263,12 +272,27 @@ func (sc *Scenario) buildNetwork() []client.Object {
 		}
 		pm := gatewayv1beta1.PathMatchPathPrefix
 		p1, p2 := "/api", "/other"
+		stableRefs := []gatewayv1beta1.HTTPBackendRef{ref(svcName, nil)}
+		if sc.ForeignBackend {
+			w90, w10 := int32(90), int32(10)
+			stableRefs = []gatewayv1beta1.HTTPBackendRef{ref(svcName, &w90), ref("other-svc", &w10)}
+		}
 		route := &gatewayv1beta1.HTTPRoute{ObjectMeta: metav1.ObjectMeta{Namespace: sc.NS, Name: sc.Name + "-route"},
 			Spec: gatewayv1beta1.HTTPRouteSpec{Rules: []gatewayv1beta1.HTTPRouteRule{
-				{Matches: []gatewayv1beta1.HTTPRouteMatch{{Path: &gatewayv1beta1.HTTPPathMatch{Type: &pm, Value: &p1}}}, BackendRefs: []gatewayv1beta1.HTTPBackendRef{ref(svcName, nil)}},
+				{Matches: []gatewayv1beta1.HTTPRouteMatch{{Path: &gatewayv1beta1.HTTPPathMatch{Type: &pm, Value: &p1}}}, BackendRefs: stableRefs},
 				{Matches: []gatewayv1beta1.HTTPRouteMatch{{Path: &gatewayv1beta1.HTTPPathMatch{Type: &pm, Value: &p2}}}, BackendRefs: []gatewayv1beta1.HTTPBackendRef{ref("other-svc", nil)}},
 			}}}
 		out = append(out, route)
+	case sc.Traffic == "custom-cm":
+		// a user-provided custom resource with a well-behaved script from the rollout ConfigMap
+		tag := &unstructured.Unstructured{Object: map[string]interface{}{
+			"apiVersion": "example.io/v1", "kind": "TrafficTag",
+			"metadata": map[string]interface{}{"namespace": sc.NS, "name": sc.Name + "-tag", "labels": map[string]interface{}{"team": "web"}},
+			"spec":     map[string]interface{}{"stable": svcName, "rules": []interface{}{map[string]interface{}{"to": svcName, "percent": int64(100)}}},
+		}}
+		cm := &corev1.ConfigMap{ObjectMeta: metav1.ObjectMeta{Namespace: "kruise-rollout", Name: "kruise-rollout-configuration"},
+			Data: map[string]string{"lua.traffic.routing.TrafficTag.example.io": customTagScript}}
+		out = append(out, tag, cm)
 	case sc.Traffic == "istio":
 		vs := &unstructured.Unstructured{Object: map[string]interface{}{
 			"apiVersion": "networking.istio.io/v1alpha3", "kind": "VirtualService",
@@ -286,3 +310,24 @@ func (sc *Scenario) buildNetwork() []client.Object {
 	}
 	return out
 }
+
+// customTagScript: a well-behaved custom provider script: everything is computed from the original object
+// (obj.data) and the current step; it writes spec, a label and an annotation.
+const customTagScript = `
+local spec = obj.data.spec
+local labels = obj.data.labels or {}
+local annotations = obj.data.annotations or {}
+if obj.matches and next(obj.matches) ~= nil then
+    spec.canary = { to = obj.canaryService, match = "header" }
+    labels["canary-mode"] = "match"
+    labels["canary-weight"] = nil
+else
+    local w = obj.canaryWeight
+    if w == -1 then w = 100 end
+    spec.rules = { { to = obj.stableService, percent = 100 - w }, { to = obj.canaryService, percent = w } }
+    labels["canary-mode"] = "weight"
+    labels["canary-weight"] = tostring(w)
+end
+annotations["canary-service"] = obj.canaryService
+return { spec = spec, labels = labels, annotations = annotations }
+`
